@@ -3,7 +3,7 @@
 # can be tried without disturbing /repo or the main /verif build caches.
 #   lab.sh init            create/refresh /tmp/lab/{repo,verif}
 #   lab.sh try <PROP> <patch.diff> [tier]   apply patch in the lab repo, run the lab check, revert
-LAB=/tmp/lab
+LAB=${LAB:-/tmp/lab}
 case "$1" in
  init)
   mkdir -p $LAB
